@@ -8,7 +8,8 @@ Oracle: the scalar-order function of the same family (the relation the property 
 Sequence and scalar routines run the same recurrences on the same coordinates, so they may differ
 only by the rounding of a final scaling; the comparison is at K*eps(dtype)*cond*max(|mode|, FLOOR) per
 mode, cond = 1 + |m|*max|theta| for the modes with an azimuthal factor (the sequence routines form
-m*theta in double precision, the scalar ones in the coordinate precision) and 1 otherwise.  Honest
+m*theta in double precision, the scalar ones in the coordinate precision), 1 + n for the Chebyshev
+sequences (their constants 1/P_n(1) come from a recurrence sweep in the coordinate precision) and 1 otherwise.  Honest
 difference measured on the pinned tree over the whole scope: <= 1.7 eps*cond (see TOL_K).
 
 Signatures.  Every case evaluates the 1-D reference coordinate (5 points, float64) first.  When
@@ -16,7 +17,13 @@ that already disagrees the defect is about *which orders* were asked for and the
 the order cell (``laguerre_der_seq:n0=0``, ``xy_seq:zero-exp``); when the 1-D reference agrees and
 another coordinate array does not, the defect is about the *array shape* and the signature carries
 the shape cell (``cheby2_seq:2d``, ``cheby1_seq:2d:lead=len`` = leading dimension equal to the number
-of orders, the silently mis-broadcast case).
+of orders, the silently mis-broadcast case); a disagreement that appears only for another coordinate
+dtype / config.precision carries that (``hermite_H_seq:n0=0:coords=c128``, ``...:prec32``).
+
+Second-wave additions (docs/STRENGTHEN.md): a threshold-order alphabet (orders 170..300, the overflow
+points of factorial / Gamma), a coordinate-dtype alphabet x both config.precision settings, mixed
+dtypes and open (broadcastable) grids for the two-coordinate families, and the output dtype of the
+sequence must be the common dtype of the scalar results (exemptions listed in DTYPE_EXEMPT).
 """
 import itertools
 
@@ -27,6 +34,7 @@ from mc.linalg import dense
 from mc.state import reset_poly_caches
 
 import prysm.polynomials as P
+from prysm.conf import config
 
 ID = 'C08'
 ASSUMPTIONS = [
@@ -35,6 +43,9 @@ ASSUMPTIONS = [
     'xy / xy_seq with cartesian_grid=True are exercised only on 2-D meshgrid coordinates, the precondition that flag asserts '
     '(on 0-D/1-D/3-D input xy() forms an outer product and xy_seq() does not; with cartesian_grid=False every shape is exercised)',
     'orders are passed as Python lists of int, (n, m) pairs as lists of tuples',
+    'the threshold-order, dtype/precision and mixed-dtype/open-grid units are alphabets (finite lists), not closed over subsets of orders',
+    'integer coordinates are enumerated only where they are in the domain and the scalar family is integer-valued (Hermite, Dickson with integer '
+    'alpha, XY); open grids only for xy_seq -- see INT_COORDS / OPEN_GRID and the report for what the current tree does elsewhere',
 ]
 
 TOL_K = 64         # honest seq-vs-scalar difference on the pinned tree is <= 1.7 eps * cond * mode scale (margin > 35x)
@@ -94,6 +105,25 @@ TWO = {
 }
 COVERED = set(ONE) | set(TWO)
 
+# order lists around the overflow points of n! / Gamma(n+1) (171) and of float32 / power-of-two sizes
+HIGH_ORDERS = [[171], [300], [170, 171], [0, 171], [171, 172, 200], [255, 256, 300]]
+DTYPE_ORDERS = [[0, 1, 2, 5], [3], [1, 4]]
+# the sequence dtype must equal the common dtype of the scalar results, except (current tree, NumPy 2 promotion rules):
+DTYPE_EXEMPT = {
+    **{f'cheby{i}{d}_seq': 'float32 coordinates: the scalar function returns float64 for n=0 and float32 otherwise (1/np.ones_like(1) is a '
+       'float64 scalar); cheby2/4 sequences return float64 (integer order array / float32), cheby1/3 float32' for i in (1, 2, 3, 4) for d in ('', '_der')},
+    'Qbfs_seq': 'float32 coordinates: Qbfs(n>=1) multiplies by the float64 scalar 1/np.sqrt(19) and returns float64, Qbfs(0) and Qbfs_seq float32',
+    'Q2d_seq': 'inherits Qbfs for m=0; for m!=0 the scalar result takes result_type(r, t), the sequence the dtype of r',
+    **{n: 'float32 coordinates: zernike_nm_seq calls recurrence_abc(n, 0, np.int64(|m|)), which caches NumPy float64 constants under the key the scalar '
+          'function uses with a Python int; after that zernike_nm returns float64 for float32 input, on a cold cache float32 (history-dependent dtype)'
+       for n in ('zernike_nm_seq', 'zernike_nm_der_seq')},
+}
+# families for which integer coordinate arrays are enumerated (integer-valued polynomials: the scalar functions return exact integers)
+INT_COORDS = {'hermite_He_seq': [[]], 'hermite_He_der_seq': [[]], 'hermite_H_seq': [[]], 'hermite_H_der_seq': [[]],
+              'dickson1_seq': [[-1], [0]], 'dickson2_seq': [[-1], [0]]}
+OPEN_GRID = {'xy_seq'}      # two-coordinate families for which (1,N) x (M,1) coordinates are enumerated
+SHORT = {'float64': 'f64', 'float32': 'f32', 'complex128': 'c128', 'int64': 'i64'}
+
 
 # ---------------------------------------------------------------------------------------------
 # coordinates
@@ -114,7 +144,21 @@ def coords(shape, seed, salt, lo, hi, dtype):
     x = np.asarray(x, dtype=float)
     if shape == (5,):
         x[0], x[1], x[2] = lo, hi, 0.5 * (lo + hi)
+    if np.dtype(dtype).kind == 'c':
+        x = x + 0.25j * np.tanh(np.asarray(dense(shape, seed, salt + 100, complex_=False), dtype=float))
+    if np.dtype(dtype).kind in 'iu':
+        x = np.rint(x)
     return np.asarray(x, dtype=dtype)
+
+
+def eps_of(*dtypes):
+    """Comparison precision: the coarsest floating precision among the coordinate dtypes."""
+    e = float(np.finfo(float).eps)
+    for d in dtypes:
+        d = np.dtype(d)
+        if d.kind in 'fc':
+            e = max(e, float(np.finfo(d).eps))
+    return e
 
 
 def dimclass(shape, k):
@@ -128,12 +172,14 @@ def compare(got, want, eps, cond=None):
     """-> (ok, bad mode indices, message); never raises.  want has been built by the harness."""
     try:
         g = np.asarray(got)
-        if g.dtype.kind not in 'fiu':
-            return False, None, f'non-real output dtype {g.dtype}'
+        if g.dtype.kind not in 'fiuc':
+            return False, None, f'non-numeric output dtype {g.dtype}'
         if g.shape != want.shape:
             return False, None, f'shape {g.shape} != expected {want.shape}'
-        g = g.astype(float)
-        w = want.astype(float)
+        if (g.dtype.kind == 'c') != (want.dtype.kind == 'c'):
+            return False, None, f'output dtype {g.dtype} but the scalar function returns a {"complex" if want.dtype.kind == "c" else "real"} result'
+        g = g.astype(want.dtype)
+        w = want
         k = w.shape[0]
         scale = np.abs(w.reshape(k, -1)).max(axis=1) if w[0].size else np.zeros(k)
         scale = np.where(np.isfinite(scale), scale, 1.0)
@@ -172,10 +218,11 @@ def stack_scalar(R, outs, shape, sname):
     try:
         arrs = [np.asarray(o) for o in outs]
         for a in arrs:
-            if a.shape != tuple(shape) or a.dtype.kind not in 'fiu':
+            if a.shape != tuple(shape) or a.dtype.kind not in 'fiuc':
                 R.violation(f'{sname}:shape', f'{sname} returned shape {a.shape} dtype {a.dtype} for coordinates of shape {tuple(shape)}')
                 return None
-        return np.stack([a.astype(float) for a in arrs]) if arrs else None
+        kind = complex if any(a.dtype.kind == 'c' for a in arrs) else float
+        return np.stack([a.astype(kind) for a in arrs]) if arrs else None
     except Exception as e:   # noqa
         R.violation(f'{sname}:shape', f'{sname} output cannot be stacked: {type(e).__name__}: {e}')
         return None
@@ -184,9 +231,23 @@ def stack_scalar(R, outs, shape, sname):
 def observe(R, got):
     """Feed the sequence output into the determinism digest of the case."""
     try:
-        R.observe(np.asarray(got, dtype=float))
+        R.observe(np.asarray(got))
     except Exception:   # noqa -- an uncomparable output has already been reported by compare()
         pass
+
+
+def check_dtype(R, name, got, outs, label, coord_dtypes):
+    """The stack's dtype is the common dtype of the scalar results (what stacking them one at a time would give)."""
+    if name in DTYPE_EXEMPT or got is FAILED:
+        return
+    if any(np.ndim(o) == 0 for o in outs):
+        return      # 0-D coordinates decay to NumPy scalars inside the scalar functions, whose in-place ops re-bind and promote differently
+    try:
+        gd = np.asarray(got).dtype
+        wd = np.result_type(*[np.asarray(o).dtype for o in outs])
+    except Exception:   # noqa -- reported by compare()
+        return
+    R.expect(gd == wd, f'{name}:dtype:{label}', f'{name} returns dtype {gd} for {coord_dtypes} coordinates; the scalar function returns {wd}')
 
 
 def dedupe(R):
@@ -206,51 +267,69 @@ def order_cell(ns):
     c = f'n0={ns[0] if ns[0] < 3 else "3+"}'
     if any(b - a != 1 for a, b in zip(ns, ns[1:])):
         c += ':gapped'
+    if ns[-1] >= 100:
+        c += ':high'
     return c
 
 
 def run_one(case, seed, R):
+    """case: f, par, ns [, shapes, dtypes, prec].  Default: every DESIGN shape x {float64, float32} at precision 64."""
     name, par, ns = case['f'], case['par'], case['ns']
     sname, (lo, hi), _ = ONE[name]
     fseq, fsca = getattr(P, name, None), getattr(P, sname, None)
     if not R.expect(callable(fseq) and callable(fsca), f'{name}:missing', f'{name} / {sname} not exported by prysm.polynomials'):
         return
     k = len(ns)
+    shapes = [tuple(sh) for sh in case['shapes']] if 'shapes' in case else shapes_for(k)
+    dtypes = case.get('dtypes', ['float64', 'float32'])
+    prec = case.get('prec', 64)
+    tail = ':prec32' if prec == 32 else ''
     ref_ok = {}
-    for shape in shapes_for(k):
-        for dtype in ('float64', 'float32'):
-            eps = float(np.finfo(dtype).eps)
-            x = coords(shape, seed, 11, lo, hi, dtype)
-            xin = x.copy()
-            got = R.call(fseq, list(ns), *par, xin, sig=f'{name}:raises')
-            exc = R.violations.pop()['msg'] if got is FAILED else None   # re-filed below under the cell signature
-            outs = [R.call(fsca, n, *par, x.copy(), sig=f'{sname}:raises') for n in ns]
-            want = stack_scalar(R, outs, shape, sname)
-            if want is None:
-                if exc is not None:
-                    R.violation(f'{name}:raises', exc)
-                continue
-            R.checks += 1
-            if got is FAILED:
-                ok, msg = False, exc
-            else:
-                ok, bad, msg = compare(got, want, eps)
-                observe(R, got)
-            if shape == (5,):
-                ref_ok[dtype] = ok
-            if not ok:
-                if not ref_ok.get('float64', True) or (shape == (5,) and dtype == 'float64'):
-                    cell = order_cell(ns)
-                elif shape == (5,):
-                    cell = order_cell(ns) + ':f32'
+    config.precision = prec
+    try:
+        for shape in shapes:
+            for dtype in dtypes:
+                eps = eps_of(dtype)
+                x = coords(shape, seed, 11, lo, hi, dtype)
+                xin = x.copy()
+                got = R.call(fseq, list(ns), *par, xin, sig=f'{name}:raises')
+                exc = R.violations.pop()['msg'] if got is FAILED else None   # re-filed below under the cell signature
+                outs = [R.call(fsca, n, *par, x.copy(), sig=f'{sname}:raises') for n in ns]
+                want = stack_scalar(R, outs, shape, sname)
+                if want is None:
+                    if exc is not None:
+                        R.violation(f'{name}:raises', exc)
+                    continue
+                R.checks += 1
+                if got is FAILED:
+                    ok, msg = False, exc
                 else:
-                    cell = dimclass(shape, k)
-                    if dtype == 'float32' and ref_ok.get(('shape', shape), False):
-                        cell += ':f32'
-                R.violation(f'{name}:{cell}', f'{name}({list(ns)}, {", ".join(map(str, par))}{", " if par else ""}x{list(shape)} {dtype}) vs {sname}: {msg}')
-            if dtype == 'float64':
-                ref_ok[('shape', shape)] = ok
-            R.expect(np.array_equal(xin, x), f'{name}:input-mutated', f'{name} modified its coordinate array (shape {shape})')
+                    # Chebyshev: the per-order constant 1/P_n(1) comes from a second recurrence sweep at x=1 in the coordinate
+                    # precision (the scalar function does it in double): honest difference ~ 1.3 n eps (measured up to n=300)
+                    cond = [1.0 + n for n in ns] if name.startswith('cheby') else None
+                    ok, bad, msg = compare(got, want, eps, cond)
+                    observe(R, got)
+                is_ref = shape == (5,)
+                if is_ref:
+                    ref_ok[dtype] = ok
+                if not ok:
+                    if not ref_ok.get('float64', True) or (is_ref and dtype == 'float64'):
+                        cell = order_cell(ns)                       # already wrong on the 1-D float64 reference: about the orders
+                    elif is_ref:
+                        cell = order_cell(ns) + ':coords=' + SHORT.get(dtype, dtype)
+                    else:
+                        cell = dimclass(shape, k)
+                        if dtype != 'float64' and ref_ok.get(('shape', shape), False):
+                            cell += ':coords=' + SHORT.get(dtype, dtype)
+                    R.violation(f'{name}:{cell}{tail}', f'{name}({list(ns)}, {", ".join(map(str, par))}{", " if par else ""}x{list(shape)} {dtype}, '
+                                                       f'config.precision={prec}) vs {sname}: {msg}')
+                else:
+                    check_dtype(R, name, got, outs, SHORT.get(dtype, dtype) + tail, dtype)
+                if dtype == 'float64':
+                    ref_ok[('shape', shape)] = ok
+                R.expect(np.array_equal(xin, x), f'{name}:input-mutated', f'{name} modified its coordinate array (shape {shape})')
+    finally:
+        config.precision = 64
     dedupe(R)
     R.nontrivial(any(n >= 1 for n in ns))
     R.outcome('single' if k == 1 else ('gapped' if 'gapped' in order_cell(ns) else 'contiguous'))
@@ -269,7 +348,31 @@ def mode_cell(name, pair):
     return 'm=0' if m == 0 else ('m>0' if m > 0 else 'm<0')
 
 
+def two_configs(case, name, k, grid_only):
+    """-> list of (shape of x/r, shape of y/t, dtype of x/r, dtype of y/t).  Default: the DESIGN shapes, one dtype for both."""
+    if 'cfg' in case:
+        return [(tuple(c[0]), tuple(c[1]), c[2], c[3]) for c in case['cfg']]
+    return [(sh, sh, dt, dt) for sh in shapes_for(k) if not (grid_only and len(sh) != 2) for dt in ('float64', 'float32')]
+
+
+def two_coords(name, grid_only, sa, sb, da, db, seed):
+    if name == 'xy_seq':
+        if sa == sb and grid_only:
+            xv = coords((sa[1],), seed, 21, -2, 2, da)
+            yv = coords((sa[0],), seed, 22, -2, 2, db)
+            return tuple(np.ascontiguousarray(v) for v in np.meshgrid(xv, yv))
+        if sa != sb:          # open grid: x is a row (1, N), y a column (M, 1) -- np.meshgrid(..., sparse=True)
+            xv = coords((int(np.prod(sa)),), seed, 21, -2, 2, da)
+            yv = coords((int(np.prod(sb)),), seed, 22, -2, 2, db)
+            return xv.reshape(sa), yv.reshape(sb)
+        return coords(sa, seed, 21, -2, 2, da), coords(sa, seed, 22, -2, 2, db)
+    a = coords((int(np.prod(sa)),) if sa != sb else sa, seed, 23, 0, 1, da).reshape(sa)                 # r
+    b = coords((int(np.prod(sb)),) if sa != sb else sb, seed, 24, 0, 2 * np.pi, db).reshape(sb)         # theta
+    return a, b
+
+
 def run_two(case, seed, R):
+    """case: f, var, nms [, cfg, prec]."""
     name, var, nms = case['f'], case['var'], [tuple(p) for p in case['nms']]
     sname, kwname, _, _, _ = TWO[name]
     fseq, fsca = getattr(P, name, None), getattr(P, sname, None)
@@ -278,23 +381,15 @@ def run_two(case, seed, R):
     kw = {} if kwname is None else {kwname: var}
     k = len(nms)
     grid_only = name == 'xy_seq' and var is True
+    prec = case.get('prec', 64)
+    tail = ':prec32' if prec == 32 else ''
     ref_ok = {}
-    for shape in shapes_for(k):
-        if grid_only and len(shape) != 2:
-            continue
-        for dtype in ('float64', 'float32'):
-            eps = float(np.finfo(dtype).eps)
-            if name == 'xy_seq':
-                if grid_only:
-                    xv = coords((shape[1],), seed, 21, -1, 1, dtype)
-                    yv = coords((shape[0],), seed, 22, -1, 1, dtype)
-                    a, b = (np.ascontiguousarray(v) for v in np.meshgrid(xv, yv))
-                else:
-                    a = coords(shape, seed, 21, -1, 1, dtype)
-                    b = coords(shape, seed, 22, -1, 1, dtype)
-            else:
-                a = coords(shape, seed, 23, 0, 1, dtype)                  # r
-                b = coords(shape, seed, 24, 0, 2 * np.pi, dtype)          # theta
+    config.precision = prec
+    try:
+        for sa, sb, da, db in two_configs(case, name, k, grid_only):
+            shape = tuple(np.broadcast_shapes(sa, sb))
+            eps = eps_of(da, db)
+            a, b = two_coords(name, grid_only, sa, sb, da, db, seed)
             ain, bin_ = a.copy(), b.copy()
             got = R.call(fseq, list(nms), ain, bin_, sig=f'{name}:raises', **kw)
             exc = R.violations.pop()['msg'] if got is FAILED else None   # re-filed below under the cell signature
@@ -302,7 +397,7 @@ def run_two(case, seed, R):
             if name == 'zernike_nm_der_seq':
                 # scalar returns (d/dr, d/dt); the sequence stacks them on axis 1
                 try:
-                    outs = [o if o is FAILED else np.stack([np.asarray(o[0], dtype=float), np.asarray(o[1], dtype=float)]) for o in outs]
+                    outs = [o if o is FAILED else np.stack([np.asarray(o[0]), np.asarray(o[1])]) for o in outs]
                 except Exception as e:   # noqa
                     R.violation(f'{sname}:shape', f'{sname} did not return a (dr, dt) pair of equal shapes: {type(e).__name__}: {e}')
                     if exc is not None:
@@ -324,25 +419,37 @@ def run_two(case, seed, R):
                 cond = None if name == 'xy_seq' else [1.0 + abs(p[1]) * tmax for p in nms]
                 ok, bad, msg = compare(got, want, eps, cond)
                 observe(R, got)
-            is_ref = shape == ((5,) if not grid_only else (3, 4))
+            plain = sa == sb and da == db
+            is_ref = plain and sa == ((5,) if not grid_only else (3, 4))
+            dlabel = SHORT.get(da, da) if da == db else f'{SHORT.get(da, da)}/{SHORT.get(db, db)}'
             if is_ref:
-                ref_ok[dtype] = ok
+                ref_ok[da] = ok
             if not ok:
                 modes = '+'.join(sorted({mode_cell(name, nms[j]) for j in (bad if bad else range(k))}))
-                if not ref_ok.get('float64', True) or (is_ref and dtype == 'float64'):
+                if not ref_ok.get('float64', True) or (is_ref and da == 'float64'):
                     cell = modes
                 elif is_ref:
-                    cell = modes + ':f32'
+                    cell = modes + ':coords=' + dlabel
+                elif sa != sb:
+                    cell = 'open-grid' + ('' if dlabel == 'f64' else ':coords=' + dlabel)
+                elif da != db:
+                    cell = 'coords=' + dlabel
                 else:
-                    cell = dimclass(shape, k)
-                    if dtype == 'float32' and ref_ok.get(('shape', shape), False):
-                        cell += ':f32'
+                    cell = dimclass(sa, k)
+                    if da != 'float64' and ref_ok.get(('shape', sa), False):
+                        cell += ':coords=' + dlabel
                 vs = '' if kwname is None else f', {kwname}={var}'
-                R.violation(f'{name}:{cell}', f'{name}({list(nms)}, coords{list(shape)} {dtype}{vs}) vs {sname}: {msg}')
-            if dtype == 'float64':
-                ref_ok[('shape', shape)] = ok
+                R.violation(f'{name}:{cell}{tail}', f'{name}({list(nms)}, coords {list(sa)} {da} / {list(sb)} {db}{vs}, config.precision={prec}) vs {sname}: {msg}')
+            elif da == db or name == 'xy_seq':
+                # with two different coordinate dtypes only xy() has a well-defined result dtype (result_type(x, y));
+                # the polar scalar functions take it from r in some orders and from theta in others
+                check_dtype(R, name, got, outs, dlabel + tail, f'{da}/{db}')
+            if plain and da == 'float64':
+                ref_ok[('shape', sa)] = ok
             R.expect(np.array_equal(ain, a) and np.array_equal(bin_, b), f'{name}:input-mutated',
-                     f'{name} modified its coordinate arrays (shape {shape})')
+                     f'{name} modified its coordinate arrays (shapes {sa}, {sb})')
+    finally:
+        config.precision = 64
     dedupe(R)
     R.nontrivial(any(p != (0, 0) for p in nms))
     R.outcome('single' if k == 1 else ('repeat' if len(set(nms)) < k else 'distinct'))
@@ -411,4 +518,55 @@ def plan(tier, seed):
             f' ({len(lists)} lists) x {kwname}={variants}; inside each case every coordinate shape {shapes_txt}'
             + (' (cartesian_grid=True: the four 2-D shapes as true meshgrids)' if name == 'xy_seq' else '')
             + '; non-trivial when a pair other than (0,0) is requested', reset=reset_poly_caches, chunk=CHUNK))
+    units.extend(second_wave(tier))
     return units
+
+
+def second_wave(tier):
+    """Threshold orders, coordinate dtypes x config.precision, mixed dtypes / open grids (docs/STRENGTHEN.md)."""
+    two_shapes = [[5], [3, 4]]
+    # (1) threshold orders: every one-index family, every parameter value
+    hi_cases = [{'f': n, 'par': par, 'ns': ns, 'shapes': two_shapes, 'dtypes': ['float64', 'float32']}
+                for ns in HIGH_ORDERS for n in ONE for par in ONE[n][2]]
+    # (2) coordinate dtype alphabet x both precisions
+    dt_cases = []
+    for prec in (64, 32):
+        for ns in DTYPE_ORDERS:
+            for n in ONE:
+                dt_cases.append({'f': n, 'par': ONE[n][2][0], 'ns': ns, 'shapes': two_shapes,
+                                 'dtypes': ['float64', 'float32', 'complex128'], 'prec': prec})
+                for par in INT_COORDS.get(n, []):
+                    dt_cases.append({'f': n, 'par': par, 'ns': ns, 'shapes': two_shapes, 'dtypes': ['float64', 'int64'], 'prec': prec, 'int': 1})
+    # (3) two-coordinate families: mixed dtypes, open grids
+    mix = [['float64', 'float64'], ['float32', 'float64'], ['float64', 'float32']]
+    mix_xy = mix + [['int64', 'float64'], ['float64', 'int64'], ['int64', 'int64'], ['complex128', 'float64'], ['float32', 'complex128']]
+    two_cases = []
+    for prec in (64, 32):
+        for name, (sname, kwname, variants, pool, extra) in TWO.items():
+            srt = sorted(pool, key=lambda p: (p[0], p[1]))
+            lists = [[p] for p in pool] + [srt, [pool[3], pool[1], pool[8]], [pool[5], pool[5], pool[2]]]
+            for v in variants:
+                grid = name == 'xy_seq' and v is True
+                cfg = []
+                for da, db in (mix_xy if name == 'xy_seq' else mix):
+                    for sh in (([3, 4],) if grid else ([5], [3, 4])):
+                        cfg.append([sh, sh, da, db])
+                    if name in OPEN_GRID:
+                        cfg.append([[1, 4], [3, 1], da, db])
+                for nms in lists:
+                    two_cases.append({'f': name, 'var': v, 'nms': nms, 'cfg': cfg, 'prec': prec})
+    return [
+        ScopeUnit('hi_orders', hi_cases, run_one,
+                  f'threshold-order alphabet (NOT closed over subsets): every one-index *_seq x every parameter value x order lists {HIGH_ORDERS} '
+                  '(around the overflow of n!/Gamma at 171 and 255/256/300) on the 1-D point set and a (3,4) grid, float64 and float32; inf/NaN patterns '
+                  'must match the scalar function exactly', reset=reset_poly_caches, chunk=4),
+        ScopeUnit('dtype_precision', dt_cases, run_one,
+                  f'coordinate-dtype alphabet: every one-index *_seq x order lists {DTYPE_ORDERS} x config.precision {{64, 32}} x coordinates '
+                  '{float64, float32, complex128} (+ int64 for ' + ', '.join(sorted(INT_COORDS)) + ') on the 1-D point set and a (3,4) grid; values as the scalar '
+                  'function, and the dtype of the stack = common dtype of the scalar results (exempt: ' + ', '.join(sorted(DTYPE_EXEMPT)) + ')',
+                  reset=reset_poly_caches, chunk=CHUNK),
+        ScopeUnit('mixed_coords', two_cases, run_two,
+                  'two-coordinate families x config.precision {64, 32} x lists {each pool pair alone, the sorted pool, two 3-lists}: the two coordinate arrays '
+                  f'differ in dtype {mix} (xy_seq also {mix_xy[3:]}) on (5,) and (3,4) coordinates, and for ' + ', '.join(sorted(OPEN_GRID)) +
+                  ' open grids x (1,4) / y (3,1); expected shape = broadcast shape, values and dtype as the scalar function', reset=reset_poly_caches, chunk=CHUNK),
+    ]
